@@ -303,6 +303,7 @@ impl Rig {
             }
             if t0.elapsed() > WATCHDOG {
                 self.dead.store(true, Ordering::SeqCst);
+                WATCHDOG_DEATHS.fetch_add(1, Ordering::SeqCst);
                 self.rec(json!({"e": "dead", "why": "after-commit watchdog"}));
                 return false;
             }
@@ -1107,6 +1108,12 @@ fn par_one(id: u64, rng: &mut StdRng, p: &ParParams, panics: &Arc<AtomicU64>) ->
     std::mem::take(&mut *rig.trace.lock())
 }
 
+/// commits that were let through the gate and whose after-commit notification never arrived (60 s each):
+/// after a few of them the remaining runs are skipped (the check reports the first ones)
+static WATCHDOG_DEATHS: std::sync::atomic::AtomicU64 = std::sync::atomic::AtomicU64::new(0);
+const MAX_WATCHDOG_DEATHS: u64 = 2;
+fn give_up() -> bool { WATCHDOG_DEATHS.load(Ordering::SeqCst) >= MAX_WATCHDOG_DEATHS }
+
 // -------------------------------------------------------------------- main
 
 fn main() {
@@ -1127,6 +1134,7 @@ fn main() {
             let inp = util::arg_str(&a, "in", "");
             let text = std::fs::read_to_string(inp).expect("read --in");
             for (i, line) in text.lines().filter(|l| !l.trim().is_empty()).enumerate() {
+                if give_up() { break; }
                 let beh: Value = serde_json::from_str(line).expect("behaviour json");
                 emit(replay_one(i as u64 + 1, &beh, &panics));
             }
@@ -1134,6 +1142,7 @@ fn main() {
         "seq" => {
             let mut rng = StdRng::seed_from_u64(seed);
             for i in 0..runs {
+                if give_up() { break; }
                 let kind = match util::arg_str(&a, "map", "any") {
                     "any" => [Kind::Single, Kind::Dynamic, Kind::Set][rng.gen_range(0..3)],
                     s => Kind::parse(s),
@@ -1153,6 +1162,7 @@ fn main() {
         "par" => {
             let mut rng = StdRng::seed_from_u64(seed);
             for i in 0..runs {
+                if give_up() { break; }
                 let kind = match util::arg_str(&a, "map", "any") {
                     "any" => [Kind::Single, Kind::Dynamic, Kind::Set][rng.gen_range(0..3)],
                     s => Kind::parse(s),
